@@ -438,22 +438,34 @@ fn primed_pairs(acc: &mut Acc) {
             }
         }
     }
-    for (prime, canon, variant) in jobs {
-        acc.transitions += 1;
-        let res = std::thread::scope(|s| {
-            s.spawn(|| {
-                let mut a = Acc::new();
-                let _ = parse_spec(&prime);
-                judge(&canon, &variant, &["after-earlier-parse-of-a-similar-text"], &mut a);
-                let _ = parse_spec(&prime);
-                judge(&variant, &canon, &["after-earlier-parse-of-a-similar-text"], &mut a);
-                a
+    let fresh = |steps: Vec<String>| -> Result<(String, Expr), String> {
+        std::thread::scope(|s| {
+            s.spawn(move || {
+                let mut last = Err("no step".to_string());
+                for st in &steps {
+                    last = observe(st);
+                }
+                last
             })
             .join()
-            .unwrap()
-        });
-        let taken = std::mem::take(acc);
-        *acc = taken.merge(res);
+            .unwrap_or_else(|_| Err("thread died".into()))
+        })
+    };
+    for (prime, canon, variant) in jobs {
+        acc.transitions += 2;
+        acc.states += 2;
+        for (a, b) in [(&variant, &canon), (&canon, &variant)] {
+            // a is read right after the priming text; b on a thread of its own
+            let primed = fresh(vec![prime.clone(), a.clone()]);
+            let alone = fresh(vec![b.clone()]);
+            if primed != alone {
+                acc.violate(Violation::new(
+                    "C06:after-earlier-parse-of-a-similar-text:differs",
+                    format!("{a:?} parsed right after {prime:?} on the same thread gives {:?}; its equivalent spelling {b:?} parsed on a fresh thread gives {:?}", primed.as_ref().map(|x| x.1.show()), alone.as_ref().map(|x| x.1.show())),
+                    json!({"kind": "primed", "prime": prime, "first": a, "second": b}),
+                ));
+            }
+        }
     }
 }
 
@@ -504,6 +516,10 @@ pub fn replay(w: &Value) -> Vec<Violation> {
     let mut acc = Acc::new();
     let kinds: Vec<String> = w["deviations"].as_array().map(|a| a.iter().filter_map(|x| x.as_str().map(String::from)).collect()).unwrap_or_default();
     let ks: Vec<&str> = kinds.iter().map(|s| s.as_str()).collect();
+    if w["kind"] == "primed" {
+        primed_pairs(&mut acc);
+        return acc.violations.into_values().map(|(v, _)| v).collect();
+    }
     let (c, v) = (w["canonical"].as_str().unwrap_or(""), w["variant"].as_str().unwrap_or(""));
     if c == v && !matches!(crate::textcmp::compare(c), crate::textcmp::Verdict::AgreeAccept(_) | crate::textcmp::Verdict::Skip(_)) {
         acc.violate(Violation::new("C06:canonical-spelling-misread", format!("{c:?} is not read as the reference reads it"), w.clone()));
